@@ -47,6 +47,7 @@ func newEnv() *env.Env {
 	c <- 2
 	e.Define("vc", c)
 	e.Define("vg", func(a int64) int64 { return a * 2 })
+	e.DefineType("ST", ST{})                 // vmk = make(ST): a struct value that is addressable where it is bound, unlike one handed over by the host
 	e.Define("vst", ST{A: 5, B: "b"})
 	e.Define("vsp", &ST{A: 6, B: "c"})
 	e.Define("vtl", []int64{4, 5, 6})
@@ -65,7 +66,7 @@ func newEnv() *env.Env {
 	e.Define("g1", func(a interface{}) interface{} { return fmt.Sprintf("%T", a) })
 	e.Define("gi", func(a int64) int64 { return a + 100 })
 	e.Define("gv", func(xs ...interface{}) int64 { return int64(len(xs)) })
-	_, err := vm.Execute(e, nil, "vfn = func(a) { return a + 1 }\nf1 = func(a) { return a }\nf2 = func(a, b) { return [a, b] }\nfv = func(a...) { return len(a) }\nf5 = func(a, b, c, d, e) { return [a, b, e] }\nfl = func(a...) { return a }\nmod1 = nil\nmodule mo { x = 1 }\nvmo = mo")
+	_, err := vm.Execute(e, nil, "vfn = func(a) { return a + 1 }\nf1 = func(a) { return a }\nf2 = func(a, b) { return [a, b] }\nfv = func(a...) { return len(a) }\nf5 = func(a, b, c, d, e) { return [a, b, e] }\nfl = func(a...) { return a }\nmod1 = nil\nmodule mo { x = 1 }\nvmo = mo\nvmk = make(ST)\nvmk.A = 8")
 	if err != nil {
 		panic(err)
 	}
